@@ -91,6 +91,15 @@ func (e *SyncedCachedEnforcer) LoadPolicy() error {
 	return e.SyncedEnforcer.LoadPolicy()
 }
 
+// ClearPolicy clears all policy and every cached decision.
+func (e *SyncedCachedEnforcer) ClearPolicy() {
+	if err := e.cache.Clear(); err != nil {
+		e.logger.LogError(err, "clear cache failed")
+		return
+	}
+	e.SyncedEnforcer.ClearPolicy()
+}
+
 func (e *SyncedCachedEnforcer) AddPolicy(params ...interface{}) (bool, error) {
 	if ok, err := e.checkOneAndRemoveCache(params...); !ok {
 		return ok, err
